@@ -132,9 +132,86 @@ def multi_failure(c, upsample, starts, nb):
     return None
 
 
+def edge_failure(c, starts, crop_function, nb, prefill):
+    """a disk inside the frame but so close to the border that the search windows overhang the frame (zero background, so that the
+    zero padding continues the uniform background), looked for from several start positions through one call of each kernel with
+    the given crop function; the crop buffers have been used before (for a noise frame) when prefill is set"""
+    from libertem_blobfinder.base import correlation as bc
+    pattern = cl.pattern_from_desc(c['desc'])
+    cs = pattern.get_crop_size()
+    frame = render(c).astype(np.float32)
+    fn = {'numba': bc.crop_disks_from_frame, 'slicing': bc.crop_disks_from_frame_slicing}[crop_function]
+    for method in ('fast', 'full'):
+        try:
+            if method == 'fast':
+                bufs = np.zeros((nb, 2 * cs, 2 * cs), dtype=np.float32)
+                if prefill:
+                    noise = (np.arange(frame.size, dtype=np.float32).reshape(frame.shape) * 7.0) % 13.0
+                    cl.run_fast(pattern, noise, starts, crop_function=fn, crop_bufs=bufs)
+                o = cl.run_fast(pattern, frame, starts, crop_function=fn, crop_bufs=bufs)
+            else:
+                o = cl.run_full(pattern, frame, starts, bc=nb, crop_function=fn)
+        except Exception as e:  # noqa
+            return 'process_frame_%s raised %s: %s' % (method, type(e).__name__, e)
+        for k in range(len(starts)):
+            err = float(np.abs(o[1][k].astype(np.float64) - np.array(c['p'])).max())
+            if o[0][k].tolist() != list(c['p']) or not err <= 0.01:
+                return ('process_frame_%s (%s crop function, %d crop buffers%s): disk centred on pixel %s close to the border of frame %s (radius %s, %s): start %s gives centre %s '
+                        'refined %s (%.4f px off, bound 0.01)' % (method, crop_function, nb, ' used before' if prefill else '', c['p'], c['shape'], c['radius'], c['desc']['kind'],
+                                                                  list(starts[k]), o[0][k].tolist(), o[1][k].tolist(), err))
+    return None
+
+
+def gen_edge(rng):
+    """disk touching distance from one or two borders; start positions anywhere in the capture range"""
+    for _ in range(50):
+        c = gen(rng)
+        if c is None or c['desc']['kind'] == 'UserTemplate' and False:
+            continue
+        pattern = cl.pattern_from_desc(c['desc'])
+        cs = pattern.get_crop_size()
+        R = int(math.ceil(c['radius'])) + 1
+        fy, fx = c['shape']
+        if fy < 2 * R + 2 or fx < 2 * R + 2:
+            continue
+        side = int(rng.integers(0, 8))
+        py = {0: R, 1: fy - R - 1}.get(side % 4 if side < 4 else side - 4, int(rng.integers(R, fy - R)))
+        px = {2: R, 3: fx - R - 1}.get(side % 4, int(rng.integers(R, fx - R)))
+        if side >= 4:          # corners
+            py, px = (R, fy - R - 1)[side & 1], (R, fx - R - 1)[(side >> 1) & 1]
+        c = dict(c, p=(int(py), int(px)), bg=0, off=(0, 0))
+        if abs(c['amp']) > 1000:
+            c['amp'] = 20
+        cap = max(0, cs - int(math.ceil(c['radius'])) - 1)
+        cand = [(c['p'][0] + dy, c['p'][1] + dx) for dy in range(-cap, cap + 1) for dx in range(-cap, cap + 1)]
+        k = min(len(cand), int(rng.integers(2, 6)))
+        starts = [cand[i] for i in rng.permutation(len(cand))[:k]]
+        return c, starts
+    return None, None
+
+
+def extreme_starts(c):
+    """start positions at the very limit of the capture range: the window [start - cs, start + cs - 1] just contains the disk"""
+    cs = int(math.ceil(c['desc']['search']))      # the documented window half-size, computed independently of get_crop_size()
+    R = int(math.ceil(c['radius']))
+    lo, hi = -(cs - 1 - R), cs - R          # offsets start - p for which p - R >= start - cs and p + R <= start + cs - 1
+    fy, fx = c['shape']
+    out = []
+    for dy in (lo, 0, hi):
+        for dx in (lo, 0, hi):
+            q = (c['p'][0] + dy, c['p'][1] + dx)
+            if (dy, dx) != (0, 0) and cs <= q[0] <= fy - cs and cs <= q[1] <= fx - cs:
+                out.append(q)
+    return out
+
+
 def replay(body):
+    if 'frame_ints' in body.get('args', {}):
+        return cl.replay_case(body, 'C01')          # a failing input recorded by the model correspondence (cl.model_check)
     a = body['args']
-    if 'starts' in a:
+    if 'edge' in a:
+        fail = edge_failure(a['case'], a['starts'], a['edge']['crop_function'], a['edge']['nb'], a['edge']['prefill'])
+    elif 'starts' in a:
         fail = multi_failure(a['case'], a.get('upsample', False), a['starts'], a['nb'])
     else:
         fail = stmt_failure(a['case'], a.get('upsample', False))
@@ -158,7 +235,7 @@ def classify(fail, c):
 def run(ctx):
     rng = ctx.rng
     ctx.check_theorems()
-    ctx.check_generated(['padcrop', 'eval', 'kcalls'])
+    ctx.check_generated(['padcrop', 'eval', 'kcalls', 'qpat'])
 
     # (K) the model pipeline on sharp flat disks (integer data): argmax = disk centre, centre of mass EXACTLY symmetric, and the
     #     hypotheses of the theorems checked by computation on the implementation's actual mask
@@ -280,6 +357,41 @@ def run(ctx):
                               signature=classify(fail, c))
                 if len(ctx.violations) > nv:
                     break
+    # (S) start positions at the very limit of the capture range (the window just contains the disk), search sizes with every fractional part
+    n = 0
+    tries = 0
+    while n < ctx.n(40, 500) and tries < 5000:
+        tries += 1
+        c = gen(rng)
+        if c is None or c['desc']['kind'] == 'UserTemplate':
+            continue
+        n += 1
+        for q in extreme_starts(c):
+            c2 = dict(c, off=(q[0] - c['p'][0], q[1] - c['p'][1]))
+            fail = stmt_failure(c2, False)
+            ctx.count(2, key=('extreme', json.dumps(c['desc'])[:200], c['shape'], c['p'], c2['off'], c['amp'], c['bg']))
+            ctx.hist('extreme start: fractional part of search', '%.1f' % (c['desc']['search'] % 1.0))
+            if fail:
+                ctx.violation('input', fail, {'kind': 'input', 'call': 'process_frames_fast/full', 'args': {'case': c2, 'upsample': False}, 'failure': fail}, signature=classify(fail, c2))
+                break
+        if ctx.violations:
+            break
+    # (S) disks close to the frame border (windows overhang the frame), both crop functions, fresh and used crop buffers
+    for k in range(ctx.n(60, 600)):
+        c, starts = gen_edge(rng)
+        if c is None:
+            continue
+        cf = ('numba', 'slicing')[k % 2]
+        nb = int(rng.integers(1, len(starts) + 1))
+        prefill = bool(rng.integers(0, 2))
+        fail = edge_failure(c, starts, cf, nb, prefill)
+        ctx.count(2 * len(starts), key=('edge', json.dumps(c['desc'])[:200], c['shape'], c['p'], starts, cf, nb, prefill))
+        ctx.hist('edge disk: crop function', cf)
+        if fail:
+            ctx.violation('input', fail, {'kind': 'input', 'call': 'base.correlation.process_frame_fast/full', 'args': {'case': c, 'starts': [list(q) for q in starts],
+                                                                                                                  'edge': {'crop_function': cf, 'nb': nb, 'prefill': prefill}}, 'failure': fail},
+                          signature=classify(fail, c))
+            break
     return ctx.finish(
         LEVEL,
         explanation='Theorems: FFT product = cross-correlation for centro-symmetric masks of any parity; radial masks are centro-symmetric and user templates keep their centre; map of '
@@ -288,4 +400,4 @@ def run(ctx):
                     'model giving argmax = centre and sy = r s exactly; the theorems\' hypotheses (csymb, bathtub/sign) evaluated in Coq on the implementation\'s actual masks.',
         rule='(S) 5 pattern classes (user templates: antialiased disks of odd/even/non-square shape centred on shape//2), radii 2..14 fractional, search 1.25..2.5 radius, frame '
              'shapes of all parities up to 69, disk position anywhere the window fits, start offsets up to the capture range, amplitudes 1..400, backgrounds, sharp and antialiased '
-             'disks, upsample in {False, True, 2, 5, 10, 50}; every third case additionally from 2..9 start positions in one call with 1..n crop buffers (several blocks); (K) the same with crop size <= 5 and frames <= 11.')
+             'disks, upsample in {False, True, 2, 5, 10, 50}; every third case additionally from 2..9 start positions in one call with 1..n crop buffers (several blocks); start positions at the very limit of the capture range; disks close to the frame border (overhanging windows) with both crop functions and used crop buffers; (K) the same with crop size <= 5 and frames <= 11.')
